@@ -47,6 +47,15 @@ def idsIncreasing : List Nat → Bool
 
 def holdsStep (r : Ref) (op : Op) (o : Obs) : Bool × Ref :=
   let (r', w) := refStep r op
+  match op with
+  | .sendFail _ =>
+    -- a Send that returned an error did not "accept" the stanza: the property does not say whether it is held. The
+    -- code keeps it (it was stored before the write); dropping exactly IT again would be as good. What the property
+    -- demands is that nothing ELSE changes - the stanzas accepted before stay held, in order.
+    let keep := decide (o.held.map (·.stz) = r'.held)
+    let drop := decide (o.held.map (·.stz) = r.held)
+    (decide (o.writes = w) && (keep || drop) && idsIncreasing (o.held.map (·.id)), if keep then r' else r)
+  | _ =>
   (decide (o.writes = w) && decide (o.held.map (·.stz) = r'.held) && idsIncreasing (o.held.map (·.id)), r')
 
 end XmppVerif.Spec.C10
